@@ -271,6 +271,13 @@ class Out:
                 if val.endswith(' ') and not val.endswith('\\ '):
                     # (a name may end with an escaped space, which is not white space)
                     self._remove_last_if_S()
+                if self.out and (
+                    (val.startswith('*') and self.out[-1] == '/')
+                    or (val == '=' and self.out[-1] in ('*', '~', '|', '^', '$'))
+                ):
+                    # written without white space "/" + "*" would open a comment
+                    # and "*" + "=" would become the single token "*="
+                    self.out.append(' ')
                 self.out.append(val)
 
             # POST
